@@ -85,9 +85,21 @@ def run(ctx):
             try:
                 every = ctx.rng.choice([1, 2, 3])
                 spy["log"] = []
-                ref = sr.aspire_file_run(cfg, os.path.join(d, "ref.h5"), every=every)
+                fi = fcfgs.index(cfg)
+                refpath = os.path.join(d, common.ckpt_name("ref", fi + 1))
+                ref = sr.aspire_file_run(cfg, refpath, every=every)
                 if ref.error is not None:
                     continue
+                # the payloads go to the file the user named (and nowhere else)
+                stray = sorted(set(os.listdir(d)) - {os.path.basename(refpath)})
+                blob0 = None
+                if os.path.exists(refpath):
+                    with h5py.File(refpath, "r") as f:
+                        blob0 = f["checkpoint"]["state"][...].tobytes() if "checkpoint" in f and "state" in f["checkpoint"] else None
+                if spy["log"] and (blob0 != spy["log"][-1][1] or stray):
+                    ctx.violation("completed-run-file-not-last-payload", f"after a completed run {os.path.basename(refpath)} holds "
+                                  f"{'no checkpoint' if blob0 is None else 'a checkpoint that is not the last payload' if blob0 != spy['log'][-1][1] else 'the payload'}; "
+                                  f"other files in the directory: {stray}", {"cfg": cfg, "every": every, "file": os.path.basename(refpath)})
                 total = ref.target.ncalls
                 T = len(ref.history.beta)
                 want = expected_cadence(T, True, every)
@@ -96,14 +108,14 @@ def run(ctx):
                     ctx.violation(f"file-cadence:every={every}", f"file callback invoked at {got}, cadence dictates {want}", {"cfg": cfg, "every": every})
                 ks = sorted(set([0, 1, 2, total // 2, total - 1] + [ctx.rng.randrange(0, total) for _ in range(ctx.scale(3, 40))]))
                 for k in ks:
-                    path = os.path.join(d, f"f{k}.h5")
+                    path = os.path.join(d, common.ckpt_name(f"f{k}", k))
                     spy["log"] = []
                     bad = sr.aspire_file_run(cfg, path, fail_at=k, every=every)
                     if bad.error is None:
                         continue
                     nfault += 1
                     ctx.count((cfg["seed"], every, k), True, kind="file-fault/" + ("with-checkpoint" if spy["log"] else "before-first-checkpoint"))
-                    rep = {"cfg": cfg, "every": every, "fault_at_user_call": k}
+                    rep = {"cfg": cfg, "every": every, "fault_at_user_call": k, "file": os.path.basename(path)}
                     if not os.path.exists(path):
                         ctx.violation("file-missing-after-fault", f"no checkpoint file after a fault at user-call {k}", rep)
                         continue
